@@ -2,7 +2,7 @@
 import re
 
 from . import compdb
-from .prog import AnalysisBroken, key, strip, strip_parens, walk, const_value
+from .prog import AnalysisBroken, key, strip, strip_parens, walk, const_value, resolve_key
 from .origins import Origins
 from .ub1 import UB1, INF, type_range
 
@@ -261,6 +261,11 @@ def r_array(P, chk, only_units=None):
                         chk.obligation(rid, desc + ": every value reaching `%s` is a constant in [%d,%d] < %d (origin analysis "
                                        "over all call sites / table stores)" % (key(idx), ov[0], ov[1], size), True)
                         continue
+                if size is not None:
+                    sent = _sentinel_scan(P, f, n, arr, idx, size)
+                    if sent:
+                        chk.obligation(rid, desc + ": " + sent, True)
+                        continue
                 rev = ARRAY_REVIEWED.get((f.name, akey.split("->")[-1]))
                 if rev:
                     chk.obligation(rid, desc + " reviewed: " + rev, True)
@@ -285,6 +290,110 @@ def r_array(P, chk, only_units=None):
     chk.analysed[rid] = {"non_constant_index_sites_and_copies": n_sites, "constant_index_sites": n_trivial,
                          "token_type_range": list(inv) if inv else None, "kMaxTokenTypes": kmax}
     chk.floor(rid, n_sites, 50 if only_units is None else 2, "array index / copy sites with a non-constant index or length")
+
+
+def _sentinel_scan(P, f, n, arr, idx, size):
+    """`for (i = 0; tab[i] != NULL; ++i) .. tab[i] ..` over an immutable file-scope table whose initialiser contains a null /
+    zero element: i starts at 0, advances by one only after tab[i] was seen non-null, so it never passes the first null."""
+    from .prog import edpe_blocks
+    a = strip(arr)
+    i = strip(idx)
+    if a is None or i is None or a["k"] != "DeclRefExpr" or i["k"] != "DeclRefExpr" or i.get("dk") != "Var":
+        return None
+    var = None
+    for u in P.units.values():
+        for v in u.vars:
+            if v.get("name") == a["n"] and v.get("def") and isinstance(v.get("init"), list):
+                var = v
+    if var is None:
+        return None
+    t = var.get("type") or ""
+    if not (re.search(r"const\s*\[", t) or (t.startswith("const ") and "*" not in t)):
+        return None
+    init = var["init"]
+    has_null = len(init) < size or any(c == 0 or (isinstance(c, dict) and c.get("null")) for c in init)
+    if not has_null:
+        return None
+    nm = i["n"]
+    incs, others = [], []
+    for x in f.walk():
+        k = x["k"]
+        if k == "UnaryOperator" and key(x["c"][0]) == nm:
+            if x["op"] in ("post++", "pre++"):
+                incs.append(x)
+            elif x["op"] in ("post--", "pre--", "&"):
+                others.append(x)
+        elif k == "CompoundAssignOperator" and key(x["c"][0]) == nm:
+            if x["op"] == "+=" and const_value(x["c"][1]) == 1:
+                incs.append(x)
+            else:
+                others.append(x)
+        elif k == "BinaryOperator" and x["op"] == "=" and key(x["c"][0]) == nm and const_value(x["c"][1]) != 0:
+            others.append(x)
+        elif k == "VarDecl" and x.get("n") == nm and (not x.get("c") or x["c"][0] is None or const_value(x["c"][0]) != 0):
+            others.append(x)
+    if others or len(incs) != 1:
+        return None
+
+    def is_elem(e):
+        e = strip(e)
+        return e is not None and e["k"] == "ArraySubscriptExpr" and key(e["c"][0]) == a["n"] and key(e["c"][1]) == nm
+
+    def is_null(e):
+        return const_value(e) == 0 or key(e) in ("NULL", "0")
+    tests = []
+    for w in f.walk():
+        if w["k"] not in ("ForStmt", "WhileStmt"):
+            continue
+        cond = w["c"][1] if w["k"] == "ForStmt" else w["c"][0]
+        st = [cond]
+        while st:
+            c = strip(st.pop())
+            if c is None:
+                continue
+            if c["k"] == "BinaryOperator" and c["op"] == "&&":
+                st += c["c"]
+            elif c["k"] == "BinaryOperator" and c["op"] == "!=" and ((is_elem(c["c"][0]) and is_null(c["c"][1])) or (is_elem(c["c"][1]) and is_null(c["c"][0]))):
+                tests.append((w, c))
+            elif is_elem(c):
+                tests.append((w, c))
+    if len(tests) != 1:
+        return None
+    loop, T = tests[0]
+    # the single increment belongs to this loop and to no inner one
+    inner = None
+    for anc in f.ancestors(incs[0]):
+        if anc["k"] in ("ForStmt", "WhileStmt", "DoStmt"):
+            inner = anc
+            break
+    if inner is not loop:
+        return None
+
+    def decide(t):
+        t = strip(t)
+        if t is not None and t.get("i") == T.get("i"):
+            return False
+        return None
+    dead = edpe_blocks(f, "?none", 0, extra_decide=decide)
+    pos = f.cfg.positions()
+
+    def stmt_of(z):
+        while z is not None and z.get("i") not in pos:
+            z = f.parent(z)
+        return z
+    si, sn, sT = stmt_of(incs[0]), stmt_of(n), stmt_of(T)
+    if si is None or sn is None or sT is None:
+        return None
+    if pos[si["i"]][0] in dead:
+        return None          # the increment can run without the test having succeeded
+    in_test = any(y is n for y in walk(T))
+    if not in_test:
+        if pos[sn["i"]][0] in dead:
+            return None
+        if _reaches(f, pos, si, sn, [sT]):
+            return None      # i may have advanced since the test
+    return "sentinel scan: %s is an immutable table with a null element, `%s` starts at 0 and is advanced by one only after " \
+           "`%s` succeeded, so it never passes the first null (< %d)" % (a["n"], nm, f.src(T), size)
 
 
 def _fmt(x):
@@ -408,12 +517,6 @@ def _check_copy(P, f, n, ub, chk, rid):
 # R-LOOKBEHIND
 
 LOOKBEHIND_REVIEWED = {
-    ("mmd_export_token_opendocument", "out->currentStringLength-11"):
-        "heading branch: a `<text:h text:outline-level=\"%d\">` literal (>= 33 bytes) was appended to `out` earlier on the same "
-        "path and only a trailing \"<text:tab/>\" (11 bytes) is ever erased, so the length stays >= 33",
-    ("mmd_export_token_latex", "strlen(temp_char2)-1"):
-        "temp_char2 = text inside a PAIR_BRACKET_CITATION taken with the closer's length (1), so it starts with the '#' of the "
-        "`[#` opener: never empty",
     ("traverse_for_images", "t->len-2"):
         "t is a PAIR_PAREN token, which spans both parentheses: len >= 2",
     ("url_accept", "start+scan_len"):
@@ -481,6 +584,229 @@ def param_ranges(P, f, field_inv, cache):
     return out
 
 
+_CONV = re.compile(r"%(?:%|[-+ #0]*\d*(?:\.\d+)?(?:hh|h|ll|l|z)?([diouxXcsfgp]))")
+
+
+def _literal_append(c, dkey_):
+    """(minimum expansion length, literal tail after the last conversion) of a call that appends a literal / a format to the
+    DString named dkey_; None otherwise."""
+    cal = c.get("callee")
+    if cal not in ("d_string_append", "d_string_append_printf", "d_string_append_c_array") or len(c["c"]) < 3 or key(c["c"][1]) != dkey_:
+        return None
+    lit = strip(c["c"][2])
+    if lit is None or lit["k"] != "StringLiteral":
+        return None
+    s_ = lit.get("s") or ""
+    if cal != "d_string_append_printf":
+        return len(s_), s_
+    n, last = 0, 0
+    for m in _CONV.finditer(s_):
+        n += m.start() - last
+        if m.group(0) == "%%":
+            n += 1
+        elif m.group(1) in "diouxXcfgp":
+            n += 1
+        last = m.end()
+    n += len(s_) - last
+    return n, s_[last:]
+
+
+def _suffix_guards(P, unit):
+    """Every way a function of this unit shortens a DString: ("trim",) for the whitespace trimmer, ("erase", n, literal) for
+    `d_string_erase(D, D->currentStringLength - n, n)` that runs only after a str(n)cmp of exactly those n bytes with a
+    literal.  None if the unit shortens a DString in any other way."""
+    from .prog import resolve_key
+    out = []
+    for f in unit.funcs.values():
+        if not P.first_party(f):
+            continue
+        for x in f.walk():
+            if (x["k"] == "BinaryOperator" and x["op"] == "=" or x["k"] == "CompoundAssignOperator" or
+                    (x["k"] == "UnaryOperator" and x["op"] in ("post--", "pre--"))) and key(x["c"][0]).endswith("->currentStringLength"):
+                return None
+            if x["k"] != "CallExpr":
+                continue
+            cal = x.get("callee")
+            if cal == "trim_trailing_whitespace_d_string":
+                out.append(("trim",))
+            elif cal in ("d_string_erase",):
+                d = key(x["c"][1])
+                n = const_value(x["c"][3]) if const_value(x["c"][3]) is not None else _const_of(f, x["c"][3])
+                posk = _fold(resolve_key(f, x["c"][2]))
+                if n is None or posk != "%s->currentStringLength-%d" % (d, n):
+                    return None
+                lit = None
+                for a in f.ancestors(x):
+                    if a["k"] != "IfStmt":
+                        continue
+                    for y in walk(a["c"][0]):
+                        if y["k"] == "CallExpr" and y.get("callee") in ("strcmp", "strncmp"):
+                            args = y["c"][1:3]
+                            ks = [_fold(resolve_key(f, q)) for q in args]
+                            want = "&%s->str[%s->currentStringLength-%d]" % (d, d, n)
+                            for i2 in (0, 1):
+                                if ks[i2] == want:
+                                    l2 = _string_of(P, f, args[1 - i2])
+                                    if l2 is not None and len(l2) == n:
+                                        lit = l2
+                    if lit:
+                        break
+                if lit is None:
+                    return None
+                out.append(("erase", n, lit))
+            elif cal in ("d_string_replace_text_in_range", "d_string_erase_c"):
+                return None
+    return out
+
+
+def _fold(k):
+    """Fold integer sub-expressions of a key string (`(12-1)` -> `11`) and drop parentheses and blanks."""
+    k = k.replace(" ", "")
+    for _ in range(8):
+        k2 = re.sub(r"\((\d+)([-+*])(\d+)\)", lambda m: str({"-": int(m.group(1)) - int(m.group(3)), "+": int(m.group(1)) + int(m.group(3)),
+                                                                  "*": int(m.group(1)) * int(m.group(3))}[m.group(2)]), k)
+        k2 = re.sub(r"\((\d+)\)", r"\1", k2)
+        if k2 == k:
+            break
+        k = k2
+    return k.replace("(", "").replace(")", "")
+
+
+def _const_of(f, e):
+    from .prog import resolve_key
+    try:
+        return int(_fold(resolve_key(f, e)))
+    except ValueError:
+        return None
+
+
+def _string_of(P, f, e):
+    """String literal an expression denotes: a literal, or a (static) const char array initialised with one."""
+    s_ = strip(e)
+    if s_ is None:
+        return None
+    if s_["k"] == "StringLiteral":
+        return s_.get("s")
+    if s_["k"] == "DeclRefExpr":
+        for x in f.walk():
+            if x["k"] == "VarDecl" and x.get("n") == s_["n"] and x.get("c") and x["c"][0] is not None:
+                i2 = strip(x["c"][0])
+                if i2 is not None and i2["k"] == "StringLiteral":
+                    return i2.get("s")
+        for v in f.unit.vars:
+            if v.get("name") == s_["n"] and isinstance(v.get("init"), str) and "const" in (v.get("type") or ""):
+                return v["init"]
+    return None
+
+
+def _outbuf_anchor(P, f, n, base, idx_key, depth=0):
+    """Look-behind `D->str[D->currentStringLength - k]` on an output buffer: a literal of at least k bytes was appended to D
+    on every path before (in this function, or - for a static helper - before every call of it), and the unit shortens D only
+    by trimming whitespace or by erasing a suffix it has just compared with a literal that cannot overlap the end of that
+    anchor literal.  Returns a description, or None."""
+    m = re.match(r"^(\w+)->str$", base.replace("(", "").replace(")", ""))
+    m2 = re.match(r"^(\w+)->currentStringLength-(\d+)$", _fold(idx_key))
+    if not m or not m2 or m.group(1) != m2.group(1):
+        return None
+    d, k = m.group(1), int(m2.group(2))
+    guards = _suffix_guards(P, f.unit)
+    if guards is None:
+        return None
+
+    def compatible(tail):
+        if not tail or tail[-1] in " \t\r\n":
+            return False
+        for g in guards:
+            if g[0] == "erase":
+                j = min(len(tail), len(g[2]))
+                if tail[-j:] == g[2][-j:]:
+                    return False
+        return True
+
+    def anchored(g, at, dname):
+        for c in g.calls():
+            la = _literal_append(c, dname)
+            if la and la[0] >= k and compatible(la[1]) and g.cfg.dominates(c["i"], at["i"]):
+                return "%s `%s`" % (g.where(c), (strip(c["c"][2]).get("s") or "")[:40])
+        return None
+    here = anchored(f, n, d)
+    if here:
+        return "a literal of >= %d bytes (%s) is appended to %s on every path before, and %s only loses trailing whitespace or a " \
+               "just-compared literal suffix that cannot overlap it" % (k, here, d, f.unit.base)
+    if f.static and depth < 1:
+        pi = [i for i, q in enumerate(f.params) if q[0] == d]
+        sites = [(g, c) for g in f.unit.funcs.values() if g is not f for c in g.calls(f.name)]
+        if pi and sites:
+            descs = []
+            for g, c in sites:
+                if 1 + pi[0] >= len(c["c"]):
+                    return None
+                a = anchored(g, c, key(c["c"][1 + pi[0]]))
+                if not a:
+                    return None
+                descs.append(a)
+            return "every call of %s is preceded on every path by a literal of >= %d bytes appended to its buffer (%s), and %s only " \
+                   "loses trailing whitespace or a just-compared literal suffix that cannot overlap it" % (f.name, k, "; ".join(descs[:2]), f.unit.base)
+    return None
+
+
+# Reviewed look-behinds identified by where the string comes from, not by the function or variable that holds it:
+# (unit, producer of the string, index shape with the string written `$`, token types under which the site may run) -> reason
+LOOKBEHIND_ORIGIN_REVIEWED = {
+    ("latex.c", "clean_inside_pair", "strlen($)-1", ("PAIR_BRACKET", "PAIR_BRACKET_CITATION")):
+        "the string is the text inside a PAIR_BRACKET_CITATION taken with the closer's length (1), so it starts with the '#' of the "
+        "`[#` opener: never empty",
+}
+
+
+def _origin_reviewed(P, f, n, base_node, idx):
+    from .prog import resolve_key, reaching_defs, edpe_blocks, tok_dkey
+    b = strip(base_node)
+    if b is None or b["k"] != "DeclRefExpr" or b.get("dk") != "Var":
+        return None
+    nrm = lambda x: x.replace("(", "").replace(")", "").replace(" ", "")
+    shape = nrm(re.sub(r"\b%s\b" % re.escape(b["n"]), "$", resolve_key(f, idx)))
+    for (unit, producer, want, types), reason in LOOKBEHIND_ORIGIN_REVIEWED.items():
+        if unit != f.unit.base or shape != nrm(want):
+            continue
+        defs = reaching_defs(f, b["n"], n)
+        if not defs or not all(strip(d_) is not None and strip(d_)["k"] == "CallExpr" and strip(d_).get("callee") == producer for d_ in defs):
+            continue
+        tt = dict(P.enumerators("token_types"))
+        allowed = {tt[x] for x in types if x in tt}
+
+        def types_at(g, node):
+            pos = g.cfg.positions()
+            z = node
+            while z is not None and z.get("i") not in pos:
+                z = g.parent(z)
+            if z is None:
+                return None
+            try:
+                dk = tok_dkey(g)
+            except Exception:
+                return None
+            if dk is None or not any(x["k"] == "SwitchStmt" and key(x["c"][0]) == dk for x in g.walk()):
+                return None
+            blk = pos[z["i"]][0]
+            return {v for v in tt.values() if blk in edpe_blocks(g, dk, v)}
+        ts = types_at(f, n)
+        if ts is None and f.static:
+            ts = set()
+            sites = [(g, c) for g in f.unit.funcs.values() if g is not f for c in g.calls(f.name)]
+            for g, c in sites:
+                t2 = types_at(g, c)
+                if t2 is None:
+                    ts = None
+                    break
+                ts |= t2
+            if not sites:
+                ts = None
+        if ts is not None and ts and ts <= allowed:
+            return reason
+    return None
+
+
 def r_lookbehind(P, chk):
     rid = "R-LOOKBEHIND"
     chk.rule(rid, "every index of the form x - k (k >= 1) into a string or pointer is guarded so that x >= k on all paths")
@@ -532,6 +858,12 @@ def r_lookbehind(P, chk):
                 why = "`%s` >= %s on every path, needs >= %d" % (key(need[1]), _fmt(iv[0]), need[2])
             rev = None
             if not ok:
+                anch = _outbuf_anchor(P, f, n, base, resolve_key(f, idx))
+                if anch:
+                    chk.obligation(rid, desc + ": " + anch, True)
+                    continue
+                rev = _origin_reviewed(P, f, n, n["c"][0], idx)
+            if not ok and not rev:
                 for (fn, sub), reason in LOOKBEHIND_REVIEWED.items():
                     if fn == f.name and sub in ikey:
                         rev = reason
